@@ -297,7 +297,9 @@ def f_uniq(left: Any, key: Any, lam: Lam | None) -> list[Any]:
         raise Undoc("uniq: undefined key argument")  # the CTS shows it for sort / sort_natural / map only
     kf = _keyfn("uniq", key, lam)
     if kf is not None:
-        absent = [isinstance(it, dict) and (lam(it, i) is UNDEF if lam is not None else key not in it) for i, it in enumerate(items)]
+        # (with a lambda the key of ANY item can be undefined, e.g. `x => x` over an array holding a missing value)
+        absent = [(lam(it, i) is UNDEF) if lam is not None else (isinstance(it, dict) and key not in it)
+                  for i, it in enumerate(items)]
         null = [not a and is_nil(kf(it, i)) for i, (it, a) in enumerate(zip(items, absent))]
         if any(absent) and any(null):
             raise Undoc("uniq: both missing and explicit nil keys")
@@ -611,6 +613,8 @@ def f_url_decode(s: str) -> str:
 def f_strip_html(s: str) -> str:
     if "<" not in s:
         return s
+    if "<>" in s:
+        raise Undoc("strip_html: '<>' is not a tag for an HTML parser, and is one for the reference's regular expression")
     low = s.lower()
     if "<!--" in s or "<script" in low or "<style" in low:
         raise Undoc("strip_html: comment/script/style")
